@@ -278,6 +278,7 @@ func run(c *core.Ctx) {
 		if !perOp && gen.Fingerprint(v, w) != fpBase {
 			reportWrite(phase, "(some operation of this pass)")
 		}
+		finalizeAll(res)
 		return res, steps
 	}
 	var ref, ref2 [][]string
@@ -286,19 +287,19 @@ func run(c *core.Ctx) {
 		ref, taskSteps = seqPass("sequential pass 1", true)
 		keptChanged(c, "sequential pass 1", plans, ref)
 		if c.Failed() {
-			finish(c, nil)
+			finish(c, nil, nil)
 			return
 		}
 		ref2, _ = seqPass("sequential pass 2", false)
 		if c.Failed() {
-			finish(c, nil)
+			finish(c, nil, nil)
 			return
 		}
 	}
 	if ti, oi := firstDiff(ref, ref2); ti >= 0 {
 		o := plans[ti].ops[oi]
 		c.Fail("sequential", "C12/second-call/"+opKind(o.name), "%s gives another result when called a second time on the same value: %q then %q", o.name, clip(ref[ti][oi]), clip(ref2[ti][oi]))
-		finish(c, nil)
+		finish(c, nil, nil)
 		return
 	}
 
@@ -394,6 +395,7 @@ func run(c *core.Ctx) {
 	s.Start()
 	wg.Wait()
 	cur = nil
+	finalizeAll(got)
 	simrt.Steps += s.Step()
 	c.Rec.Switches = int64(len(s.Switches))
 	for _, sw := range s.Switches {
@@ -401,7 +403,7 @@ func run(c *core.Ctx) {
 	}
 	if canary {
 		c.Logf("canary run finished without a race report")
-		finish(c, s)
+		finish(c, s, got)
 		return
 	}
 
@@ -449,7 +451,15 @@ func run(c *core.Ctx) {
 	if notDriven > 0 {
 		c.Rec.Probes = core.AddCounts(c.Rec.Probes, map[string]int{"catalogue_entry_not_synthesisable": notDriven})
 	}
-	finish(c, s)
+	finish(c, s, got)
+}
+
+func finalizeAll(res [][]string) {
+	for ti := range res {
+		for oi := range res[ti] {
+			res[ti][oi] = finalizeResult(res[ti][oi])
+		}
+	}
 }
 
 func min64(a, b int64) int64 {
@@ -509,7 +519,7 @@ func taskMain(s *sched.S, ti int, ops []*op, out []string, perr *string, wg *syn
 			*perr = opKind(o.name) + "/" + pe
 		}
 		out[oi] = r
-		s.OpEnd(ti, uint32(oi), core.Hash64([]byte(r)))
+		s.OpEnd(ti, uint32(oi), 0)
 	}
 	s.Exit(ti)
 }
@@ -518,7 +528,7 @@ func taskMain(s *sched.S, ti int, ops []*op, out []string, perr *string, wg *syn
 func setCurOp(ti int, name string) { curOp[ti] = name }
 
 // finish fills the record: interleaving hash, event-log hash, probes.
-func finish(c *core.Ctx, s *sched.S) {
+func finish(c *core.Ctx, s *sched.S, results [][]string) {
 	if s == nil {
 		c.Rec.CaseHash = core.HashStr(strings.Join(c.Trace, ";"))
 		return
@@ -532,6 +542,13 @@ func finish(c *core.Ctx, s *sched.S) {
 	var lb strings.Builder
 	for _, ev := range s.Events {
 		fmt.Fprintf(&lb, "%d,%d,%d,%d,%d,%d;", ev.Seq, ev.Step, ev.Task, ev.Kind, ev.A, ev.B)
+	}
+	// the results observed under the schedule are part of the history (hashed here, from their
+	// canonical form, rather than on the tasks' goroutines)
+	for ti := range results {
+		for oi := range results[ti] {
+			fmt.Fprintf(&lb, "r%d.%d=%016x;", ti, oi, core.Hash64([]byte(results[ti][oi])))
+		}
 	}
 	c.Rec.LogHash = core.HashStr(lb.String())
 	c.Rec.Probes = core.AddCounts(c.Rec.Probes, map[string]int{"switch_inside_operation": int(s.SwitchInsideOp)})
